@@ -68,7 +68,9 @@ CLAIMS["C06"] = (
     "specification and raises LoadError only, for every type, datum and coercion mode (induction on the type with one "
     "specification lemma per loop); hence C06_modes_agree and failure-in-one-is-failure-in-all; "
     "C06_first_error_is_among_all_errors - every leaf of the FIRST error tree is a leaf of the ALL tree, for every type "
-    "and datum (and C06_disable_error_is_among_all_errors for union-free types). Tied to the code by "
+    "and datum (and C06_disable_error_is_among_all_errors for union-free types); C06_model_loader_modes_agree - for generated model "
+    "loaders (the stop-at-first and the collect-all interpreters of Model/CrownSem.v) every crown, extra policy and datum is "
+    "accepted by all three modes or by none, with equal fields and extras. Tied to the code by "
     "running every generated case under DISABLE/FIRST/ALL on library and model (complete error trees compared) plus a "
     "direct three-way comparison of the library's modes (acceptance, value, single error among ALL's errors).",
     LOADNOTE + "Partial: under DISABLE a failing union raises one plain LoadError that stands for all cases, so the "
